@@ -1,5 +1,6 @@
 import EmsModel.Core.Polygons
 import EmsModel.Core.GeomCover
+import EmsModel.Core.ConvReads
 import EmsModel.Lemmas.Polygons
 import EmsModel.Lemmas.GeomBox
 import EmsModel.Lemmas.BBox
@@ -262,6 +263,50 @@ theorem warned_iff (isValid : Poly → Bool) (raw : List (Option Poly)) :
   · rintro ⟨q, hq, h⟩
     exact ⟨some q, hq, by simp [h]⟩
 
+/-! ### the accessors of one convention object, read in any order -/
+
+/-- what a cache holds is what the dataset says: `polygons` (if built) are the kept polygons and the warning has been
+emitted exactly if building them emits one; `mask` / `bounds` (if read) were computed from those polygons -/
+def CacheFaithful (b : Built) (c : ConvCache) : Prop :=
+  ((c.polygons = none ∧ c.warned = false) ∨ (c.polygons = some b.1 ∧ c.warned = b.2)) ∧
+  (c.mask = none ∨ (c.mask = some (polyMask b.1) ∧ c.polygons = some b.1)) ∧
+  (c.bounds = none ∨ (c.bounds = some (polysBounds b.1) ∧ c.polygons = some b.1))
+
+theorem read_faithful (b : Built) (c : ConvCache) (a : Accessor) (h : CacheFaithful b c) :
+    CacheFaithful b (c.read b a) := by
+  obtain ⟨hp, hm, hb⟩ := h
+  cases a <;> rcases hp with ⟨hp, hw⟩ | ⟨hp, hw⟩ <;> rcases hm with hm | ⟨hm, hm'⟩ <;> rcases hb with hb | ⟨hb, hb'⟩ <;>
+    simp_all [CacheFaithful, ConvCache.read, ConvCache.readPolygons]
+
+theorem reads_faithful (b : Built) (hs : List Accessor) (c : ConvCache) (h : CacheFaithful b c) :
+    CacheFaithful b (hs.foldl (ConvCache.read b) c) := by
+  induction hs generalizing c with
+  | nil => exact h
+  | cons a hs ih => exact ih _ (read_faithful b c a h)
+
+/-- Whatever accessors of one convention object were read before, and in whatever order (`mask` before `polygons`,
+`bounds` or `geometry` first, the same one twice, …): `polygons` answers the kept polygons, `mask` says exactly which
+of them exist, `bounds` is their bounding box, and the warning has been emitted iff a cell was dropped. -/
+theorem reads_order_independent (b : Built) (hs : List Accessor) :
+    observeAfter b hs = (b.1, polyMask b.1, polysBounds b.1, b.2) := by
+  have h : CacheFaithful b (hs.foldl (ConvCache.read b) {}) :=
+    reads_faithful b hs {} (by simp [CacheFaithful])
+  unfold observeAfter
+  generalize hs.foldl (ConvCache.read b) {} = c at h
+  obtain ⟨hp, hm, hb⟩ := h
+  rcases hp with ⟨hp, hw⟩ | ⟨hp, hw⟩ <;> rcases hm with hm | ⟨hm, hm'⟩ <;> rcases hb with hb | ⟨hb, hb'⟩ <;>
+    simp_all [ConvCache.observe, ConvCache.read, ConvCache.readPolygons]
+
+/-- with the mask read first, the cell a validity test drops is still reported missing by the mask -/
+theorem mask_first_iff (isValid : Poly → Bool) (raw : List (Option Poly)) (hs : List Accessor) (n : Nat) :
+    (observeAfter (keepValid isValid raw, invalidDropped isValid raw) (.mask :: hs)).2.1[n]? = some true ↔
+      ∃ q, raw[n]? = some (some q) ∧ isValid q = true := by
+  rw [reads_order_independent]
+  simp only [mask_iff]
+  constructor
+  · rintro ⟨q, hq⟩; exact ⟨q, ((invalid_dropped isValid raw n).2 q).mp hq⟩
+  · rintro ⟨q, hq⟩; exact ⟨q, ((invalid_dropped isValid raw n).2 q).mpr hq⟩
+
 /-! ### extent -/
 
 /-- The reported bounds are the bounding box of the vertices: every vertex lies inside, and
@@ -277,6 +322,13 @@ example : midBounds [0, 2, 6] = some [(-1, 1), (1, 4), (4, 8)] := by norm_num [m
 example : arakawaPolys [[some 0, some 2], [some 0, none]] [[some 0, some 0], [some 2, some 2]] 1 1 = [none] := by decide
 example : ugridPolys [(0,0),(2,0),(2,2)] [[2,0,1]] = [some [(2,2),(0,0),(2,0)]] := by decide
 example : bbox [(0,3),(2,-1)] = some (0, -1, 2, 3) := by decide
+/-- a bow-tie next to a square, the mask read before the polygons: the bow-tie is dropped, the mask says so, a warning is out -/
+example : (observeAfter (keepValid ringValid [some [(0,0),(2,2),(2,0),(0,2)], some [(2,0),(4,0),(4,2),(2,2)]],
+      invalidDropped ringValid [some [(0,0),(2,2),(2,0),(0,2)], some [(2,0),(4,0),(4,2),(2,2)]]) [.mask, .bounds, .polygons]).1
+    = [none, some [(2,0),(4,0),(4,2),(2,2)]] := by decide +kernel
+example : (observeAfter (keepValid ringValid [some [(0,0),(2,2),(2,0),(0,2)], some [(2,0),(4,0),(4,2),(2,2)]],
+      invalidDropped ringValid [some [(0,0),(2,2),(2,0),(0,2)], some [(2,0),(4,0),(4,2),(2,2)]]) [.mask, .bounds, .polygons]).2
+    = ([false, true], some (2, 0, 4, 2), true) := by decide +kernel
 
 /-! ### Overall geometry of a CF 1-D grid -/
 
